@@ -12,244 +12,300 @@ Definition show_fres (r : fres) : string :=
   end.
 Definition check (rs : list rune) : string := digest (show_fres (format_res rs)).
 Definition full (rs : list rune) : string := show_fres (format_res rs).
-Eval vm_compute in ("<<<M1830>>>" ++ check (runes_of_ascii "root packet u {
-    match crc as leftPad {
-        [00] : o,
-        42 : crc,
-        [
-            0, 255, ""a	b"", ""CRC32"", ""a\""b"",
-            ""\n""
-        ] : zchar,
+Eval vm_compute in ("<<<M1688>>>" ++ check (runes_of_ascii "packet A {
+    @rightPad('0')
+    repeat i8i8 {
+        zchar[007] packetx,
+        metadata `" ++ [28040; 24687; 31867; 22411]%N ++ runes_of_ascii "`,
+        repeat float64 T,
     },
-    string stringy @lengthOf(matchKey),
-    int,
-    @tag(1)
-    repeat zchar[4294967296] roots,
-    @leftPad('\x00')
-    x @lengthOf(crc),
+    @tag(0)
+    Z9_ {
+        int @lengthOf(tag) `line1
+        line2`,
+        repeat i8i8 {
+            zchar[00] stringy,
+            repeat f32a {
+                match i64_ as string_ {
+                    [255, 0123456789, ""{,}""] : x_y_z,
+                    """ ++ [233]%N ++ runes_of_ascii "t" ++ [233]%N ++ runes_of_ascii """ : A,
+                    ""`tick`"" : len,
+                },
+            },
+            //
+            repeat u8x {
+                u16 Z9_ @calculatedFrom(""" ++ [128512]%N ++ runes_of_ascii """) `line1
+                line2`,
+                f32 matchKey,
+            },// " ++ [27880; 37322]%N ++ runes_of_ascii "
+            float64 u8x `
+            `,
+        },//
+    },// `tick` ""quote"" 'q'
+    a1 {
+        repeat zchar[007] Foo `two words`,
+        f32a @calculatedFrom(""" ++ [28040; 24687]%N ++ runes_of_ascii """),
+        int64 i64_ @calculatedFrom(""`tick`""),
+    },
+    @lengthOf(Header)
+    f32 stringy @calculatedFrom(""x y"") `say ""hi""`,
+    Foo,
+    float64 BodyLength @calculatedFrom(""packet""),
+    uint32 int,
 }
 
-packet repeatCount {
-    zchar[255] f32a @calculatedFrom(""x y""),
+packet string_ {
+    @tag(4294967296)
+    repeat u `two words`,
+    repeat zchar[0] BodyLength,
     @tag(255)
-    char[] asx @calculatedFrom(""" ++ [28040; 24687]%N ++ runes_of_ascii """),
-    leftPad {
-        /// triple
-        // a // b
-        repeat int u8x,
-        i64 trueish @lengthOf(i8i8) `" ++ [28040; 24687; 31867; 22411]%N ++ runes_of_ascii "`,
-        repeat int64 pack,
-    },
-    match float as o {
-        //
-        65535 : Pad,
-        [0123456789, """ ++ [128512]%N ++ runes_of_ascii """, """ ++ [28040; 24687]%N ++ runes_of_ascii """] : i8i8,
-        7 : asx,
-        00 : stringy,
-    },
-    @calculatedFrom(""" ++ [233]%N ++ runes_of_ascii "t" ++ [233]%N ++ runes_of_ascii """)
-    f32a u,
-    repeat msg_type `" ++ [233]%N ++ runes_of_ascii "`,
-    repeat zchar[42] crc,
-    uint64 lengthOf,
-    repeat As ``,
-    zchar[007] tag `tab	here`,
-}
-
-root packet charz {
-    string msg_type,
-    @calculatedFrom("""")
-    repeat string tag `tab	here`,
-    repeat calculatedFrom,
-    repeat Foo,
-    uint64 Foo @lengthOf(packetx),
-    @rightPad()
-    match falsey as calculatedFrom {
-        [0, 10, ""a\""b""] : metadata,
-    },
-    @calculatedFrom(""\" ++ [233]%N ++ runes_of_ascii """)
-    i64 As ``,
-    @lengthOf(rootA)
-    u32 Logon @lengthOf(a1),
-    @calculatedFrom("""")
-    @leftPad(' ')
-    uint16 i8i8 @calculatedFrom(""// no comment""),
-}
-
-root packet uint8x {
-    repeat f32 chars `tab	here`,
-}
-
-MetaData calculatedFrom {
-    metadata crc,
-}")).
-Eval vm_compute in ("<<<M231>>>" ++ check (runes_of_ascii "root packet
-    metadata {  @lengthOf(
-options1
-) int32 zchar @calculatedFrom(""// no comment"" ) `
-` , repeat calculatedFrom `it's`, //
-match
-    BodyLength as lengthOf
-{ 3 /// triple
-:	leftPad , }, repeat
-u128, char[ 10
-] chars  ,// @lengthOf(
-falsey
-@calculatedFrom( ""x y"") // c
-`{ , }` ,	@tag(42
-)	float64
-    i64_
-    // packet A { u8 x, }
-    , u8x@calculatedFrom(  ""{,}"" ) `two words`
-//	t
-// trailing space 
-, @lengthOf(T)
-char[	255]  pack `it's`
-,match MetaDataX
-as i64_{
-    //
-    """ ++ [28040; 24687]%N ++ runes_of_ascii """ // @lengthOf(
-:Header , 0
-    //
-    : x_y_z 3 : // `tick` ""quote"" 'q'
-int""abc""
-    // @lengthOf(
-    : u8x ,
-    } , } packet i64_
-{@rightPad ( ) /// triple
-pack {
-match MetaDataX
-    as trueish { 1 // @lengthOf(
-:
-    len
-00	: falsey // packet A { u8 x, }
-,"""" :
-x ,
-}, } , @tag(1) char[]int @lengthOf(	metadata
-) // packet A { u8 x, }
-, a1 @lengthOf( calculatedFrom ) ,
-    @tag( 7
-    )tag@lengthOf(u ) , BodyLength /// triple
-@calculatedFrom( ""it's""
-) `say ""hi""` ,string
-msg_type ,
-    }
-    MetaData
-    Logon { BodyLength
-_x `it's` , int32 body ,
-    // trailing space 
-    } root	packet body{  }
-")).
-Eval vm_compute in ("<<<M289>>>" ++ check (runes_of_ascii "options  {
-// " ++ [27880; 37322]%N ++ runes_of_ascii "
-//x
-float // packet A { u8 x, }
-=char[]
-    // @lengthOf(
-    ; Header = false
-//
-/// triple
-}
-    // `tick` ""quote"" 'q'
-    options {	x =char[] ; }	MetaData i64_{f64 As
     /// triple
-    `
-` , repeatCount MetaDataX
-// `tick` ""quote"" 'q'
-// `tick` ""quote"" 'q'
-,
-repeatCount u128 //x
-,	metadata msg_type `tab	here`
-    ,
-    }
-packet  options1
-    {
-    repeat char[0123456789] T  , @tag(  65535
-)
-    //x
-    @calculatedFrom( ""CRC32""
-) @calculatedFrom( """ ++ [28040; 24687]%N ++ runes_of_ascii """ ) repeat string
-Logon
-    ,	@lengthOf( u128 )
-stringy  {string_ x ,
-} , @tag( // " ++ [27880; 37322]%N ++ runes_of_ascii "
-10) u64 tag @lengthOf(roots), Foo	@lengthOf(
-Foo
-)`// not a comment` ,
-string pack `a\` , match A
-    as charz {
-[ 3 ] : x ,} ,@tag(42 ) f64 msg_type @lengthOf(
-trueish )
-,match	pack /// triple
-as
-options1 { """ ++ [28040; 24687]%N ++ runes_of_ascii """ : // packet A { u8 x, }
-string_ ,	[ 65535, 7 ,
-""a\""b""
-    , 7]//	t
-: f32a 4294967296: o ,  }	,
-    char[] falsey ,
-} // " ++ [128512]%N ++ runes_of_ascii " emoji")).
-Eval vm_compute in ("<<<M104>>>" ++ check (runes_of_ascii "options{  matchKey = ""x y""
-    ;	MetaDataX
-= '0'
-;
-} packet // c
-msg_type { @rightPad ( ' '  )repeat u128 body	, match body	as /// triple
-pack{ [ ""\" ++ [233]%N ++ runes_of_ascii """ , ""1"" ]: BodyLength
-, [ 255
-, ""a	b"" , ""a\\"" , ""{,}""
-,  007 , 007 ,
-    0123456789
-] : options1	,	} ,@leftPad
-()@lengthOf(charz	)
-@tag(	42
-) o{	i32 msg_type @lengthOf( A )// " ++ [27880; 37322]%N ++ runes_of_ascii "
-`doc` ,zchar[ 1] charz  , // c
-i8 packetx`{ , }`,
-msg_type `crlf
-line`
-    , }	,
-@calculatedFrom( ""\" ++ [233]%N ++ runes_of_ascii """ ) Z9_ @calculatedFrom(
-""" ++ [128512]%N ++ runes_of_ascii """ )`tab	here` ,
-repeat char[] Foo ,
-repeat zchar[ 0123456789]	u128
-, }	packet f32a{
-    f32a @lengthOf( matchKey )//x
-, @rightPad (
-    ' ' // " ++ [27880; 37322]%N ++ runes_of_ascii "
-)@lengthOf( chars ) _x Foo  `` ,  match
-    body // c
-as
-    body
-    {	[4294967296
-    , ""packet"", 3 , """ ++ [128512]%N ++ runes_of_ascii """
-,
-0123456789  ]
-: T [ ""a\\"" ]// `tick` ""quote"" 'q'
-: T
-, ""\n""
-:
-u8x , }
+    int `line1
+    line2`,
+    uint8x `it's`,
+    @tag(65535)
+    int8 metadata `" ++ [233]%N ++ runes_of_ascii "`,/// triple
+    match options1 as float {
+        3 : f32a,
+        """ ++ [28040; 24687]%N ++ runes_of_ascii """ : charz,
+    },
+    match uint8x as string_ {
+        ""CRC32"" : x,
+    },
+    uint8 packetx `crlf
+    line`,
+    @leftPad()
+    zchar[0] Foo `say ""hi""`,
+}")).
+Eval vm_compute in ("<<<M143>>>" ++ check (runes_of_ascii "
+packet  lengthOf
+{  @tag( 65535
+/// triple
 //	t
-//x
-,} //x
-root packet lengthOf
-{ }
+)@tag( //	t
+3 ) @tag( 0123456789) options1 @calculatedFrom(""abc""
+    ) , @rightPad
+( '0')falsey @lengthOf( a1  )
+    ,
+    @lengthOf(Pad
+)body @calculatedFrom( // " ++ [128512]%N ++ runes_of_ascii " emoji
+""packet"" ) // trailing space 
+,
+} packet int
+{ string Foo @calculatedFrom(""CRC32"" ) ,}
+root
+// trailing space 
+//	t
+packet uint8x
+    {}
+root packet len { x_y_z
+_x ,
+    BodyLength rootA
+/// triple
+//
+,
+match f32a as Logon
+    {[ ""a\""b"" ,
+""" ++ [28040; 24687]%N ++ runes_of_ascii """
+    ,
+    """ ++ [128512]%N ++ runes_of_ascii """
+,65535, 00 ,4294967296
+    ,
+"""" ,""abc"" ]
+    : roots,[
+    00 ] :
+A ,  [
+    65535
+// a // b
+// trailing space 
+,
+// trailing space 
+// " ++ [128512]%N ++ runes_of_ascii " emoji
+65535
+, """" ]
+// c
+// packet A { u8 x, }
+:
+// " ++ [128512]%N ++ runes_of_ascii " emoji
+// trailing space 
+pack ,
+    }
+    // trailing space 
+    ,repeat Pad `say ""hi""` ,
+    /// triple
+    a1 calculatedFrom
+    ,
+@lengthOf( stringy )char[] As @calculatedFrom( ""\" ++ [233]%N ++ runes_of_ascii """ )
+, zchar[ 0123456789 ] Z9_
+    @lengthOf( repeatCount ) // packet A { u8 x, }
+`a\`
+, repeat // `tick` ""quote"" 'q'
+string lengthOf , //x
+u8 falsey @calculatedFrom(
+""a\\"" )  ,@calculatedFrom( ""it's"") string calculatedFrom @lengthOf( MetaDataX ) ,}")).
+Eval vm_compute in ("<<<M1626>>>" ++ check (runes_of_ascii "  options {
+}
+options
+
+    { uint8x=  
+  // @lengthOf(
+  // " ++ [27880; 37322]%N ++ runes_of_ascii "
+  	42	uint8x = /// triple
+      ""abc"" ;//x
+  _x
+=
+'0'
+}
+packet u8x { zchar[ 1 ] 
+As	`crlf
+line`
+
+,
+
+match
+metadata  as
+float {""packet"": //
+
+trueish ,	}	,repeat rootA
+,  repeat
+metadata
+
+    repeatCount	// trailing space 
+,
+	@rightPad
+( 	 // `tick` ""quote"" 'q'
+    '0'
+
+    ) i64 body
+`// not a comment`,@tag( 
+1	)
+	string	string_
+	`line1
+line2`
+, 
+uint8  u8x
+`" ++ [28040; 24687; 31867; 22411]%N ++ runes_of_ascii "`	,
+packetx
+u128
+,
+
+u tag	, 
+repeat Logon
+
+    zchar `` 
+, }  packet
+zchar {
+    }
+packet 
+MetaDataX{ @lengthOf(  Packet
+
+    )
+
+    repeatCount int
+`doc` , @tag(
+7
+
+    )packetx
+
+    @calculatedFrom(""a\""b""  // c
+    ) , match
+
+    msg_type
+
+    as
+
+x
+    { ""\n""
+	:calculatedFrom
+}
+    , //x
+		@leftPad (// packet A { u8 x, }
+  '\x00' )	@lengthOf( MetaDataX  // c
+
+  )
+// a // b
+
+char[007  ]a1  `tab	here`
+, As
+
+@calculatedFrom( ""`tick`""	)`// not a comment`, }
+
 ")).
-Eval vm_compute in ("<<<M1347>>>" ++ check (runes_of_ascii "options {
+Eval vm_compute in ("<<<M1551>>>" ++ check (runes_of_ascii "options {
+    FixedStringPadFromLeft = true;
+    FixedStringPadChar = '0';
+}
+
+packet Leg {
+    repeat InSym93 {
+        zchar[3] Acct,
+        string Side2,
+        i32 Flags,
+        f32 Note,
+        i32 msgKind,
+    },
+    f64 Note,
+    uint16 Px,
+}
+
+packet Quote {
+    zchar[2] OrderId,
+}
+
+packet Ack {
+    repeat string lastPx,
+    zchar[4] price,
+    uint32 OrderId,
+    Quote,
+    int8 Acct,
+}
+
+packet Fill {
+    repeat Leg,
+    @rightPad('0')
+    char[11] Note,
+    f64 Px,
+    @rightPad('\x00')
+    char[5] Flags,
+    zchar[9] x,
+    string msgKind,
+}
+
+root packet Order {
+    Leg,
+    repeat Ack,
+    @rightPad('\x00')
+    char[3] Side2,
+    repeat char[1] seqNo,
+    u16 clOrdID,
+    match clOrdID as Body {
+        198 : Leg,
+        23 : Quote,
+        13 : Ack,
+        159 : Fill,
+    },
+    u32 venue @calculatedFrom(""CR\
+    C32""),
+}")).
+Eval vm_compute in ("<<<M1849>>>" ++ check (runes_of_ascii "options {
     StringPrefixLenType = u16;
     ArrayPrefixLenType = u32;
     FixedStringPadFromLeft = true;
     FixedStringPadChar = '0';
 }
+
 packet Cancel {
 }
+
 packet Party {
 }
+
 packet Logon {
 }
+
 packet Ack {
 }
+
 packet Logout {
     repeat InSym87 {
         InClordid94 {
@@ -266,9 +322,11 @@ packet Logout {
         Cancel,
     },
 }
+
 root packet Order {
     repeat string tag7,
-    @leftPad(' ') char[3] Px,
+    @leftPad(' ')
+    char[3] Px,
     u8 Qty,
     match Qty as Body {
         [28, 62] : Logon,
@@ -277,272 +335,274 @@ root packet Order {
         184 : Cancel,
     },
     u16 Note @calculatedFrom(""CR\
-C32""),
-}
-")).
-Eval vm_compute in ("<<<M1315>>>" ++ check (runes_of_ascii "// top
-packet // c0
-MDSnapshotZZ // c1a
-  // c1b
-{ // c2
-u8 a // c4
-, // c5a
-  // c5b
-} // c6
-packet OrderACK // c8
-{ // c9a
-  // c9b
-u16 b // c11
-,
-    // c12
-} // c13a
-  // c13b
-packet
-    // c14
-HTTPServerInfo
-    // c15
-{ // c16
-string s
-    // c18
-,
-    // c19
-}
-    // c20
-root // c21a
-  // c21b
-packet // c22
-FIXMsg // c23
-{ u8 // c25a
-  // c25b
-KType // c26a
-  // c26b
-, // c27a
-  // c27b
-MDSnapshotZZ
-    // c28
-, // c29a
-  // c29b
-repeat
-    // c30
-OrderACK , // c32a
-  // c32b
-match // c33
-KType as // c35a
-  // c35b
-Body // c36
+        C32""),
+}")).
+Eval vm_compute in ("<<<M192>>>" ++ check (runes_of_ascii "// trailing space 
+options { f32a=
+false;	stringy=	true
+;
+u=  ""\" ++ [233]%N ++ runes_of_ascii """  ;
+    stringy = false;
+} packet options1 // " ++ [27880; 37322]%N ++ runes_of_ascii "
 {
-    // c37
-1 :
-    // c39
-HTTPServerInfo , 2 // c42
-:
-    // c43
-OrderACK
-    // c44
-, } // c46a
-  // c46b
-,
-    // c47
-} // c48a
-  // c48b
-")).
-Eval vm_compute in ("<<<M366>>>" ++ check (runes_of_ascii "packet
-// @lengthOf(
-//	t
-f32a { char[] Header`" ++ [233]%N ++ runes_of_ascii "` ,  @tag( 00
-) zchar[ 255  ] int
-    , @lengthOf(	trueish)
-x @calculatedFrom( """ ++ [128512]%N ++ runes_of_ascii """
-    )`say ""hi""` , @leftPad
-    (	'\x00'
-) @lengthOf( //	t
-u128 )//	t
-repeat BodyLength ,
-falsey @lengthOf( uint8x ), //
-@lengthOf( rootA) repeat uint8 T  `a\` , repeat  string
-lengthOf
-`it's` , @leftPad(
-    '\x00' )
-zchar[ 42
-// packet A { u8 x, }
-// a // b
-] u`say ""hi""` ,// a // b
-repeat packetx
-// a // b
-// packet A { u8 x, }
-{
-Pad  f32a
-,// trailing space 
-i8i8 msg_type `say ""hi""` , i64_ repeatCount , char[]chars , } ,}MetaData _x
-{  x matchKey `" ++ [28040; 24687; 31867; 22411]%N ++ runes_of_ascii "`, }")).
-Eval vm_compute in ("<<<M296>>>" ++ check (runes_of_ascii "MetaData u128
-{  zchar[ 3 ] matchKey	`crlf
-line` //
-, } // packet A { u8 x, }
-options
-{ //x
-} root	packet rootA
-    { @calculatedFrom(
-    ""{,}"" ) repeat u16 len ,repeat body,i8i8 @lengthOf( packetx),metadata int `line1
-line2` ,  uint8x `two words` // c
-, int16 //
-x_y_z
-, repeatCount , Logon {  repeat// trailing space 
-i8 Packet `line1
-line2`
-, } ,}
-options
-{// " ++ [128512]%N ++ runes_of_ascii " emoji
-lengthOf
-//
-// trailing space 
-= ' ' ;
-i64_ = ""{,}"" ; msg_type
-= '0'
-; u=
-// packet A { u8 x, }
-// " ++ [27880; 37322]%N ++ runes_of_ascii "
-i32;_x = ""abc""
-    // packet A { u8 x, }
-    ; }
-")).
-Eval vm_compute in ("<<<M334>>>" ++ check (runes_of_ascii "MetaData pack {
-int16 rootA `{ , }` ,
-    //	t
-    int16 // c
-x,// " ++ [27880; 37322]%N ++ runes_of_ascii "
-u32 msg_type,
-    }
-packet i64_
-    {// trailing space 
-@leftPad
-    ( '0') @rightPad ( '\x00' // packet A { u8 x, }
+} MetaData
+packetx { f32 uint8x  ,  } root packet zchar {
+@tag( 4294967296
+) @lengthOf(a1
 )
-@lengthOf(options1	)
-    string body @lengthOf( asx) `" ++ [233]%N ++ runes_of_ascii "` ,
-    }
-options { msg_type
-    //	t
-    = 00//
-;} MetaData
-    stringy// c
-{
-    zchar MetaDataX `line1
-line2` , char[255] len `it's` , f32 pack ,
-    uint16 Foo
-`it's` , int16 i64_`two words` ,
-    // `tick` ""quote"" 'q'
-    }")).
-Eval vm_compute in ("<<<M1753>>>" ++ check (runes_of_ascii "packet
-    rootA
-    { repeat uint16
-
-    stringy `" ++ [233]%N ++ runes_of_ascii "`
-,
-body
-@lengthOf(
-	stringy
-
-    ),
-    int32 matchKey 	 // " ++ [27880; 37322]%N ++ runes_of_ascii "
-	, @lengthOf( 
-roots
-) @calculatedFrom(
-    ""a\""b"" ) 
-@leftPad( 
-' ' )
-	i64 leftPad @lengthOf(repeatCount	)	`u8 x,`
-    , 	 //	t
-
-f64 len	@lengthOf(	BodyLength	// trailing space 
-      )`// not a comment`
+i8
+_x
+`it's` ,//x
+char[]	o , body
     ,
-@rightPad
-    ( )@leftPad
-( '0'
-    ) 
-repeat
-string len , // c
-char[] chars 
-`two words`
-
-, }  //	t")).
-Eval vm_compute in ("<<<M1323>>>" ++ check (runes_of_ascii "options {
-    LittleEndian = false;
-    StringPrefixLenType = u8;
-    ArrayPrefixLenType = u64;
-    FixedStringPadFromLeft = false;
-    FixedStringPadChar = ' ';
-}
-packet Reject {
-    repeat char[4] seqNo,
-    string Px,
-}
-root packet Trade {
-    @rightPad('0') char[2] msgKind,
-    repeat f64 price,
-    InAcct79 {
-        repeat Reject,
-        zchar[7] OrderId,
-    },
-    Reject,
-}
-")).
-Eval vm_compute in ("<<<M15>>>" ++ check (runes_of_ascii "MetaData // c
-u128{
-    }MetaData
-    a1 {
-}
-    root packet	o {	char[
-10 ]  stringy @lengthOf( Z9_) ,
+zchar[ 65535] msg_type
+`crlf
+line` , repeat
+    BodyLength{ repeat char[ 65535
+    ] stringy,
+},
+@calculatedFrom( """ ++ [128512]%N ++ runes_of_ascii """
+) @tag( 10
+    // a // b
+    ) repeat f32
+lengthOf`line1
+line2` , repeat  u {
+    uint32 Z9_, //
+repeat body
+`
+` , }  , @tag( 4294967296
+) i64_ @lengthOf( tag
+    // packet A { u8 x, }
+    ), @lengthOf(//	t
+float) @lengthOf(
+    // " ++ [128512]%N ++ runes_of_ascii " emoji
+    packetx	) @calculatedFrom( """ ++ [128512]%N ++ runes_of_ascii """
+)	repeat x_y_z u  ,@tag( 65535 )u8
+A	,} //")).
+Eval vm_compute in ("<<<M164>>>" ++ check (runes_of_ascii "//x
+packet x { @lengthOf(
+string_ )
+// `tick` ""quote"" 'q'
+// trailing space 
+msg_type{
+int // a // b
+@lengthOf( chars
+    )
+//x
+// " ++ [27880; 37322]%N ++ runes_of_ascii "
+`" ++ [28040; 24687; 31867; 22411]%N ++ runes_of_ascii "` , int`a\`  , }
+    ,uint32 chars  @calculatedFrom(
+""`tick`""
+    )
+    `
+` , @lengthOf( packetx // trailing space 
+)
 match
-x_y_z as stringy
-{	3
-: float ,
-    } , @leftPad //	t
-( ' '
-    ) u128 {	repeat i32 msg_type `crlf
-line` , x	, repeat char[	65535
-] T, match
-    A as
-i8i8 { """ ++ [128512]%N ++ runes_of_ascii """ : Logon
-, } //
-, } ,
-@rightPad (  '\x00') repeat x_y_z options1 `two words` , }
+    metadata as x_y_z
+{ 65535	: x ,007
+// `tick` ""quote"" 'q'
+// " ++ [128512]%N ++ runes_of_ascii " emoji
+: u [ 7 ,
+""// no comment""	,  """ ++ [28040; 24687]%N ++ runes_of_ascii """] :x ""a\\""
+: MetaDataX,0123456789 : lengthOf
+10 :
+//
+// `tick` ""quote"" 'q'
+float  }
+    ,
+    u16 Logon@calculatedFrom(""x y"") `tab	here`
+//	t
+//
+,@lengthOf(Foo ) zchar /// triple
+, }  packet
+    tag { } root packet
+x_y_z{ } MetaData int {
+    string
+A `" ++ [233]%N ++ runes_of_ascii "` ,
+}
 ")).
-Eval vm_compute in ("<<<M1483>>>" ++ check (runes_of_ascii "packet Logon {
-    o
-	Header
-	,
+Eval vm_compute in ("<<<M1863>>>" ++ check (runes_of_ascii "packet pack {
+    u8 a1 `say ""hi""`,
+    @leftPad('\x00')
+    uint8 Logon `
+        `,
+    char[] lengthOf `" ++ [233]%N ++ runes_of_ascii "`,
+    //
+    //x
+    repeat char[] As,
+    @lengthOf(string_)
+    @calculatedFrom(""a\\"")
+    repeat u8x o,
+    char string_ @calculatedFrom(""a\""b"") `tab	here`,
+    repeat As {
+        char[0] i64_ @lengthOf(T) `" ++ [233]%N ++ runes_of_ascii "`,
+        char[4294967296] T @calculatedFrom(""\" ++ [233]%N ++ runes_of_ascii """),
+        trueish,
+        repeat int {
+            string Logon @calculatedFrom(""1""),
+            metadata,
+            uint32 Z9_,// " ++ [27880; 37322]%N ++ runes_of_ascii "
+        },
+    },
+    @tag(00)
+    //	t
+    i16 a1 `a\`,
+}")).
+Eval vm_compute in ("<<<M1779>>>" ++ check (runes_of_ascii "options
 
-    Header  ,
+{
+	float = char[]} // packet A { u8 x, }
 
-@lengthOf(u )char[	255	]
-    tag	`tab	here`  ,	char[]
-    falsey
+root packet Logon
+	{ 
+@tag(
+1
+    )// a // b
+  @calculatedFrom(
+
+    ""packet""  
+      // a // b
+    // " ++ [128512]%N ++ runes_of_ascii " emoji
+    )
+zchar[3	] 
+// c
+  //x
+		Z9_
+
+,
+@lengthOf(charz )	@calculatedFrom(  ""1""
+    )
+match  roots
+    as 
+int{""a	b"" : MetaDataX,
+} 
+,
+    @calculatedFrom( ""a\""b""
+    ) match
+
+asx
+as lengthOf	{ """ ++ [128512]%N ++ runes_of_ascii """
+
+    : _x ,[
+
+255
+
+    ]	:
+
+BodyLength ,3:
+u8x,	0123456789
+    :
+
+T} 
+,  len	@lengthOf( leftPad 
+)
+	`u8 x,`
+    ,
+
+    }  // @lengthOf(
+")).
+Eval vm_compute in ("<<<M253>>>" ++ check (runes_of_ascii "packet
+u	{ @lengthOf( //
+zchar )match Header as len  {
+    42// trailing space 
+:
+    x_y_z ,
+    // " ++ [27880; 37322]%N ++ runes_of_ascii "
+    },rootA	`
+`	,	match u8x as pack {[ 1 , """" ]
+    : float , ""abc""  :
+string_ ,42 :
+    i64_/// triple
+,
+1:zchar
+// trailing space 
+// " ++ [128512]%N ++ runes_of_ascii " emoji
+} ,char[ 3 ] int ,
+match options1 as u128 { [ ""`tick`"" ] : u
+// packet A { u8 x, }
+/// triple
+, } ,	}
+options {	len	= //	t
+i8 // " ++ [27880; 37322]%N ++ runes_of_ascii "
+; zchar = true; } packet T{char[ 42 ] asx@calculatedFrom(""CRC32"" ) , }
+")).
+Eval vm_compute in ("<<<M1467>>>" ++ check (runes_of_ascii "root packet Packet {
+    string o @calculatedFrom(""\" ++ [233]%N ++ runes_of_ascii """),
+    @lengthOf(Packet)
+    body @calculatedFrom(""x y"") `it's`,
+    float64 As @calculatedFrom(""`tick`""),
+    char[] stringy @calculatedFrom(""" ++ [28040; 24687]%N ++ runes_of_ascii """) `doc`,
+    @calculatedFrom(""a	b"")
+    match float as o {
+        [007, """ ++ [128512]%N ++ runes_of_ascii """] : metadata,
+    },
+    f32a a1 `a\`,
+}
+
+MetaData repeatCount {
+    packetx i64_ `" ++ [28040; 24687; 31867; 22411]%N ++ runes_of_ascii "`,
+    zchar[3] tag,
+    i8i8 int,
+}")).
+Eval vm_compute in ("<<<M106>>>" ++ check (runes_of_ascii "MetaData Pad
+    {
+    i16 repeatCount , // c
+f32 pack `a\`,} packet//
+f32a {@lengthOf( metadata // a // b
+)match msg_type as matchKey
+    {
+00: rootA ,  }, @rightPad ( ) match repeatCount as len {
+    [/// triple
+""x y""
+// c
+//
+,
+10] : As , 42: i64_""" ++ [128512]%N ++ runes_of_ascii """	: BodyLength
+, 7
+: f32a  ,
+    }
+    ,	@lengthOf( BodyLength )	repeat Foo `line1
+line2` , } // @lengthOf(")).
+Eval vm_compute in ("<<<M1369>>>" ++ check (runes_of_ascii "
+options { LittleEndian= 
+true  ;  }
+    packet 
+Logon
+
+{
+
+u8
+x
 ,
 
-@lengthOf(
-	zchar
-    )	@rightPad ( ) float
-roots  // @lengthOf(
-,@calculatedFrom(
+    }packet
 
-    ""// no comment""
-)	i64
+    Logout 
+{ u16	reason,} root  packet
 
-u8x ,	}
-options
-{ 
-metadata
-	=  '0'
+Frame
+{ u16 Kind  ,  u16
+Kind2 ,  match
+Kind as  Body
+    {
+    1 :
 
-;  _x=
-	4294967296
-    ;
-Packet	=
-    '0'  ;
-    } ")).
+Logon  ,
+    [	2 ,
+	3 ,	4]
+    :
+
+Logout
+, 100
+:Logon ,},
+    match	Kind2
+
+    as	Trailer{
+	0 
+:
+	Logout 
+,  }
+    ,	}")).
 Eval vm_compute in ("<<<M232>>>" ++ check (runes_of_ascii "options {  A = i16
 ;
     }
@@ -583,64 +643,58 @@ pack {
 // `tick` ""quote"" 'q'
 ,
 } , }")).
-Eval vm_compute in ("<<<M190>>>" ++ check (runes_of_ascii "packet // @lengthOf(
-f32a
-    {	@rightPad (
-    '0' ) @lengthOf( BodyLength ) uint8 Foo ``,
-    //x
-    char[]
-    options1 @calculatedFrom(
-    ""it's"" ) ,@tag(255/// triple
-) uint64
-    Header @calculatedFrom( ""abc""
-) `
-`
-,}
+Eval vm_compute in ("<<<M1838>>>" ++ check (runes_of_ascii "root packet string_ {
+    @leftPad(' ')
+    chars {
+        repeat zchar[0] tag,
+        string falsey,// " ++ [128512]%N ++ runes_of_ascii " emoji
+        repeat char[007] body `two words`,
+    },
+    @calculatedFrom(""// no comment"")
+    Foo T,// " ++ [128512]%N ++ runes_of_ascii " emoji
+}")).
+Eval vm_compute in ("<<<M1422>>>" ++ check (runes_of_ascii "options {
+    FixedStringPadChar = '0';
+}
 
-")).
-Eval vm_compute in ("<<<M26>>>" ++ check (runes_of_ascii "root packet body { repeat // c
-i8i8
-`it's`
-,}
-packet chars
-{@rightPad
-    (  '\x00' )
-    // `tick` ""quote"" 'q'
-    leftPad {
-    char[ 10
+packet Q {
+    zchar[4] z,
+    @rightPad('\x00')
+    char[3] n,
+    char[5] d,
+}
+
+root packet R {
+    Q,
+    zchar[8] top,
+    repeat zchar[2] zs,
+}")).
+Eval vm_compute in ("<<<M191>>>" ++ check (runes_of_ascii "options
+{ Logon
+=char[	00
 ]
-    asx `" ++ [233]%N ++ runes_of_ascii "`, }
-    // trailing space 
-    ,
+;
+zchar
+    = false Logon =	i8
+    ;}options { asx = '0' int = ""\" ++ [233]%N ++ runes_of_ascii """  calculatedFrom= '\x00'// packet A { u8 x, }
+; // `tick` ""quote"" 'q'
 }
 ")).
-Eval vm_compute in ("<<<M1195>>>" ++ check (runes_of_ascii "// top
-packet
-    // c0
-body
-    // c1
-{
-    // c2
-i32
-    // c3
-f32a
-    // c4
-`{ , }`
-    // c5
+Eval vm_compute in ("<<<M250>>>" ++ check (runes_of_ascii "MetaData // a // b
+o {string Foo
+    , }
+MetaData  msg_type { Header len `" ++ [28040; 24687; 31867; 22411]%N ++ runes_of_ascii "`
 ,
-    // c6
-}
-    // c7
+    }
 options
-    // c8
-{
-    // c9
-}
-    // c10
-")).
-Eval vm_compute in ("<<<M392>>>" ++ check (runes_of_ascii "packet packet uint8x
+{ tag
+= '0' ;
+    o=
+""CRC32"" ; Logon = ""`tick`"" ;// a // b
+}")).
+Eval vm_compute in ("<<<M416>>>" ++ check (runes_of_ascii "packet uint8x
 { match pack
-    as msg_type	{
+    as as msg_type	{
     0123456789 :	float
 }
 ,
@@ -649,278 +703,340 @@ a1
     { } options {packetx
     = '\x00'	; u128= ""a	b""  ; }
 ")).
-Eval vm_compute in ("<<<M466>>>" ++ check (runes_of_ascii "packet uint8x
-{ match pack
-    as msg_type	{
-    0123456789 :	float
-}
-,
-} packet //	t
-a1 a1
-    { } options {packetx
-    = '\x00'	; u128= ""a	b""  ; }
-")).
-Eval vm_compute in ("<<<M546>>>" ++ check (runes_of_ascii "packet uint8x
-{ match pack
-    as msg_type	{
-    0123456789 :	float
-}
-,
-} packet //	t
-a1
-    { } options {packetx
-    = '\x00'	; @ u128= ""a	b""  ; }
-")).
-Eval vm_compute in ("<<<M442>>>" ++ check (runes_of_ascii "packet uint8x
-{ match pack
-    as msg_type	{
-    0123456789 :	}
-float
-,
-} packet //	t
-a1
-    { } options {packetx
-    = '\x00'	; u128= ""a	b""  ; }
-")).
-Eval vm_compute in ("<<<M475>>>" ++ check (runes_of_ascii "packet uint8x
-{ match pack
-    as msg_type	{
-    0123456789 :	float
-}
-,
-} packet //	t
-a1
-    {  options {packetx
-    = '\x00'	; u128= ""a	b""  ; }
-")).
-Eval vm_compute in ("<<<M510>>>" ++ check (runes_of_ascii "packet uint8x
-{ match pack
-    as msg_type	{
-    0123456789 :	float
-}
-,
-} packet //	t
-a1
-    { } options {packetx
-    = '\x00'	; = ""a	b""  ; }
-")).
-Eval vm_compute in ("<<<M660>>>" ++ check (runes_of_ascii "/""/ @lengthOf(
+Eval vm_compute in ("<<<M701>>>" ++ check (runes_of_ascii "// @lengthOf(
 packet i8i8 { u128 o , }
 options { MetaDataX = true;
-    BodyLength =""packet"" x_y_z= 007
+    BodyLength =""packet"" ""packet"" x_y_z= 007
 crc //x
 = ""abc"" ;
     msg_type =
 i16 }")).
-Eval vm_compute in ("<<<M663>>>" ++ check (runes_of_ascii "// @lengthOf(
-packet i8i8 { u128 o , }
-options { MetaDataX = true;
-    BodyLength =""packet"" x_y_z= 007
-crc //x
-= ""abc"" ;
-    msg_type =
-i16 ")).
-Eval vm_compute in ("<<<M61>>>" ++ check (runes_of_ascii "packet
-    i64_ { }
-MetaData uint8x {Packet tag , u8	repeatCount
-, x_y_z
-_x `" ++ [233]%N ++ runes_of_ascii "`
-    , zchar[
-    42
-    ]
-    crc
-`a\` ,
-} options	{ }")).
-Eval vm_compute in ("<<<M1531>>>" ++ check (runes_of_ascii "MetaData leftPad {
-    chars MetaDataX,
+Eval vm_compute in ("<<<M457>>>" ++ check (runes_of_ascii "packet uint8x
+{ match pack
+    as msg_type	{
+    0123456789 :	float
 }
-
-packet repeatCount {
-    // c
-    char[255] uint8x `" ++ [233]%N ++ runes_of_ascii "`,
-}
-
-MetaData pack {
-    As Foo,
-}")).
-Eval vm_compute in ("<<<M1811>>>" ++ check (runes_of_ascii "packet
-
-A
-{
-match	k  as
-n  { [ 
-""a""
-,	22 ,	""c c""	,
-
-4 , 
-""e""  ,  66 ,""g""	,	8	,	""i""  ,
-
-10
-]
-:
-B
-    2
-    :
-C
-}
-
-,}
-
-")).
-Eval vm_compute in ("<<<M1157>>>" ++ check (runes_of_ascii "MetaData leftPad { chars MetaDataX , } packet // c
-repeatCount { char[ 255 ] uint8x `" ++ [233]%N ++ runes_of_ascii "` , } MetaData pack { As Foo , }")).
-Eval vm_compute in ("<<<M39>>>" ++ check (runes_of_ascii "options { o =
-    '\x00' // " ++ [128512]%N ++ runes_of_ascii " emoji
-; T = u32 ; msg_type
-// `tick` ""quote"" 'q'
-//
-= ""a	b""  a1 = '\x00'
-}
-// " ++ [128512]%N ++ runes_of_ascii " emoji
-")).
-Eval vm_compute in ("<<<M943>>>" ++ check (runes_of_ascii "packet A {
-    u16 len @lengthOf(body) `a
-
-b`,
-    u32 crc @calculatedFrom(""CRC32"") `a
-
-b`,
-    string body,
-}")).
-Eval vm_compute in ("<<<M1276>>>" ++ check (runes_of_ascii "options {
-    LittleEndian = true;
-}
-root packet P {
-    u16 a,
-    u32 Sum @calculatedFrom(""CRC32""),
-}
-")).
-Eval vm_compute in ("<<<M1563>>>" ++ check (runes_of_ascii "packet A {
-    u32 crc @calculatedFrom(""\
-        ""),
-    @calculatedFrom(""\
-        "")
-    u8 y,
-}")).
-Eval vm_compute in ("<<<M1254>>>" ++ check (runes_of_ascii "
-packet
-    Inner {
-    u8 a
-
 ,
-} root
-	packet P
-
-    {  repeat
-    Inner items,	u8 
-x	, } ")).
-Eval vm_compute in ("<<<M474>>>" ++ check (runes_of_ascii "packet uint8x
+packet } //	t
+a1
+    { } options {packetx
+    = '\x00'	; u128= ""a	b""  ; }
+")).
+Eval vm_compute in ("<<<M495>>>" ++ check (runes_of_ascii "packet uint8x
 { match pack
     as msg_type	{
     0123456789 :	float
 }
 ,
 } packet //	t
-a1")).
-Eval vm_compute in ("<<<M1518>>>" ++ check (runes_of_ascii "
-packet orderItem
-{
-u8  a
-	,
-}	root	packet newOrder
-	{
-orderItem
+a1
+    { } options {packetx
+     '\x00'	; u128= ""a	b""  ; }
+")).
+Eval vm_compute in ("<<<M1432>>>" ++ check (runes_of_ascii "  packet A{
+
+    match
+	k
+    as
+
+n 
+{ [ 1 ,
+
+    22
+
+, 
+""c c""
+
 ,
-u8 
-x
-
+4  ,	5
     ,
-    } ")).
-Eval vm_compute in ("<<<M857>>>" ++ check (runes_of_ascii "packet A {
-  match k as n {
-    [1, ""bb"", 007, ""d"", 5, ""f"", 7, ""h""] : B
-    2 : C
-  },
-}")).
-Eval vm_compute in ("<<<M1275>>>" ++ check (runes_of_ascii "
+    ""f""	,  7 
+,8,	""i"" ,
 
-  options{ FixedStringPadFromLeft
-= 
-true 
-; }root 
-packet  P {char[
-    4 ]
-z,
-	}")).
-Eval vm_compute in ("<<<M830>>>" ++ check (runes_of_ascii "packet A {
+10
+,
+11
+
+] 
+:B ,
+	2 : 
+C  }
+,
+	}
+
+")).
+Eval vm_compute in ("<<<M1759>>>" ++ check (runes_of_ascii "
+packet
+A
+{match k
+
+    as
+
+    n
+    {	[""a""
+
+,""bb"",
+    007 , ""d""
+
+,
+
+""e""
+
+,
+
+    66	,
+
+    ""g"",	""h"" ,
+    9 ]
+    :B
+
+2
+: C}
+, }
+
+")).
+Eval vm_compute in ("<<<M688>>>" ++ check (runes_of_ascii "// @lengthOf(
+packet i8i8 { u128 o , }
+options { MetaDataX = true;
+    BodyLength =""packet"" x_y_z= 007
+crc //x
+= ""abc"" ;
+    msg_type =
+i16")).
+Eval vm_compute in ("<<<M1410>>>" ++ check (runes_of_ascii "packet
+	A 
+{
+    match
+	k
+	as
+n
+{
+[
+	""a"" ,  ""bb"",
+
+""c c""	,	""d""
+
+,
+
+    ""e""
+    ,
+""f""  ,
+""g""
+    ]:
+
+    B
+
+, 
+2
+    :
+C }
+,
+	}
+")).
+Eval vm_compute in ("<<<M1412>>>" ++ check (runes_of_ascii "
+
+  packet 
+A
+{
+    u16	len@lengthOf( body 
+)	`a
+b`
+,
+	u32
+    crc
+	@calculatedFrom(
+    ""CRC32"" 
+)	`a
+b` ,  string  body , }")).
+Eval vm_compute in ("<<<M970>>>" ++ check (runes_of_ascii "packet A {
+    match k as n {
+        ""x\
+y"" : B,
+        [""x\
+y"", 1] : C,
+        [1,2,3,4,5,""x\
+y""] : D,
+    },
+}")).
+Eval vm_compute in ("<<<M1173>>>" ++ check (runes_of_ascii "MetaData leftPad { chars MetaDataX , } packet repeatCount { char[ 255 ] uint8x `" ++ [233]%N ++ runes_of_ascii "` , // c
+} MetaData pack { As Foo , }")).
+Eval vm_compute in ("<<<M1420>>>" ++ check (runes_of_ascii "MetaData Packet {
+    u lengthOf `say ""hi""`,
+}
+
+MetaData metadata {
+    crc chars `crlf
+    line`,
+    asx f32a,
+}")).
+Eval vm_compute in ("<<<M880>>>" ++ check (runes_of_ascii "packet A {
   match k as n {
-    [1, ""bb"", 007, ""d"", 5, ""f""] : B,
+    [""a"", ""bb"", ""c c"", ""d"", ""e"", ""f"", ""g"", ""h"", ""i"", ""j""] : B,
     2 : C
   },
 }")).
-Eval vm_compute in ("<<<M611>>>" ++ check (runes_of_ascii "
+Eval vm_compute in ("<<<M944>>>" ++ check (runes_of_ascii "packet A {
+    Inner {
+        u8 x `a
+
+b`,
+        Deep {
+            u8 y `a
+
+b`,
+        },
+    },
+}")).
+Eval vm_compute in ("<<<M373>>>" ++ check (runes_of_ascii "  MetaData leftPad { /// triple
+char[] body,  As options1
+//
+/// triple
+,
+o
+    //x
+    i64_
+, }
+")).
+Eval vm_compute in ("<<<M610>>>" ++ check (runes_of_ascii "
 packet
     asx {match u128 as lengthOf
 {
 //	t
 // `tick` ""quote"" 'q'
-255 : x")).
-Eval vm_compute in ("<<<M67>>>" ++ check (runes_of_ascii "options { charz =""1"" _x= """ ++ [128512]%N ++ runes_of_ascii """ u = string ; stringy=
-""" ++ [28040; 24687]%N ++ runes_of_ascii """ }
-// @lengthOf(
-")).
-Eval vm_compute in ("<<<M798>>>" ++ check (runes_of_ascii "packet A {
-  match k as n {
-    [""a"", ""bb"", 007] : B
-    2 : C
-  },
-}")).
-Eval vm_compute in ("<<<M653>>>" ++ check (runes_of_ascii "// @lengthOf(
-packet i8i8 { u128 o , }
-options { MetaDataX = true")).
-Eval vm_compute in ("<<<M778>>>" ++ check (runes_of_ascii "packet A {
-  match k as n {
-    [1, 22] : B,
-    2 : C
-  },
-}")).
-Eval vm_compute in ("<<<M799>>>" ++ check (runes_of_ascii "packet A { Inner { match k as n { [1,22,007] : B, }, }, }")).
-Eval vm_compute in ("<<<M1199>>>" ++ check (runes_of_ascii "packet // c
-body { i32 f32a `{ , }` , } options { }")).
-Eval vm_compute in ("<<<M1768>>>" ++ check (runes_of_ascii "root packet A {
-    u8 x `a
-        b
-      c`,
-}")).
-Eval vm_compute in ("<<<M429>>>" ++ check (runes_of_ascii "packet uint8x
-{ match pack
-    as msg_type")).
-Eval vm_compute in ("<<<M325>>>" ++ check (runes_of_ascii "packet charz { } // packet A { u8 x, }")).
-Eval vm_compute in ("<<<M85>>>" ++ check (runes_of_ascii "options// c
-{MetaDataX =int16 }
-")).
-Eval vm_compute in ("<<<M1003>>>" ++ check (runes_of_ascii "packet A {
- u8 x `d" ++ [8192]%N ++ runes_of_ascii "`, // c" ++ [8192]%N ++ runes_of_ascii "
-}")).
-Eval vm_compute in ("<<<M581>>>" ++ check (runes_of_ascii "
+255 : x repeat
+    } ,	}")).
+Eval vm_compute in ("<<<M585>>>" ++ check (runes_of_ascii "
 packet
-    asx {match u128")).
-Eval vm_compute in ("<<<M268>>>" ++ check (runes_of_ascii " // packet A { u8 x, }")).
-Eval vm_compute in ("<<<M59>>>" ++ check (runes_of_ascii "packet
-int {
-}
+    asx {match u128 as @lengthOf(
+{
 //	t
-")).
-Eval vm_compute in ("<<<M982>>>" ++ check (runes_of_ascii "// c" ++ [12288]%N ++ runes_of_ascii "
-packet A {
+// `tick` ""quote"" 'q'
+255 : x ,
+    } ,	}")).
+Eval vm_compute in ("<<<M569>>>" ++ check (runes_of_ascii "
+packet
+    asx {u128 match as lengthOf
+{
+//	t
+// `tick` ""quote"" 'q'
+255 : x ,
+    } ,	}")).
+Eval vm_compute in ("<<<M1901>>>" ++ check (runes_of_ascii "
+packet
+
+A  {
+B b`a
+b`
+	,
+
+    B  `a
+b`, repeat
+
+    B
+
+    bs
+	`a
+b`
+
+    ,
+	}")).
+Eval vm_compute in ("<<<M556>>>" ++ check (runes_of_ascii "
+,
+    asx {match u128 as lengthOf
+{
+//	t
+// `tick` ""quote"" 'q'
+255 : x ,
+    } ,	}")).
+Eval vm_compute in ("<<<M848>>>" ++ check (runes_of_ascii "packet A {
+  match k as n {
+    [1, 22, ""c c"", 4, 5, ""f"", 7] : B
+    2 : C
+  },
 }")).
-Eval vm_compute in ("<<<M1083>>>" ++ check (runes_of_ascii "packet A { // a
- }")).
-Eval vm_compute in ("<<<M1229>>>" ++ check (runes_of_ascii "packet x
-// c
-{ }")).
-Eval vm_compute in ("<<<M1527>>>" ++ check (runes_of_ascii "packet x {
+Eval vm_compute in ("<<<M1666>>>" ++ check (runes_of_ascii "options {
+    o = '\x00';
+    T = u32;
+    msg_type = ""a	b""
+    a1 = '\x00'
 }")).
-Eval vm_compute in ("<<<M157>>>" ++ check (runes_of_ascii "//
+Eval vm_compute in ("<<<M806>>>" ++ check (runes_of_ascii "packet A {
+  match k as n {
+    [""a"", 22, ""c c"", 4] : B,
+    2 : C
+  },
+}")).
+Eval vm_compute in ("<<<M794>>>" ++ check (runes_of_ascii "packet A {
+  match k as n {
+    [""a"", 22, ""c c""] : B
+    2 : C
+  },
+}")).
+Eval vm_compute in ("<<<M1680>>>" ++ check (runes_of_ascii "packet o {
+}
+
+packet Pad {
+    BodyLength,
+}
+
+packet metadata {
+}")).
+Eval vm_compute in ("<<<M261>>>" ++ check (runes_of_ascii "options{ asx= ""1"" //	t
+Pad =  0 stringy =
+    '\x00'
+    ; }")).
+Eval vm_compute in ("<<<M760>>>" ++ check (runes_of_ascii "MetaData @rightPad 3 i32 int32 ; int8 body ""a	b"" `" ++ [28040; 24687; 31867; 22411]%N ++ runes_of_ascii "`")).
+Eval vm_compute in ("<<<M1207>>>" ++ check (runes_of_ascii "packet body { i32 f32a // c
+`{ , }` , } options { }")).
+Eval vm_compute in ("<<<M945>>>" ++ check (runes_of_ascii "MetaData M {
+    u8 x `a
+
+b`,
+    T t `a
+
+b`,
+}")).
+Eval vm_compute in ("<<<M1917>>>" ++ check (runes_of_ascii "packet
+
+    A
+{u8
+x`d" ++ [6158]%N ++ runes_of_ascii "` , 	 // c" ++ [6158]%N ++ runes_of_ascii "
+	}
 
 ")).
+Eval vm_compute in ("<<<M1801>>>" ++ check (runes_of_ascii "  root
+	packet
+    A
+{ 
+u8 x	`
+x`  ,}")).
+Eval vm_compute in ("<<<M1043>>>" ++ check (runes_of_ascii "packet A {
+ u8 x `d 	`, // c 	
+}")).
+Eval vm_compute in ("<<<M1028>>>" ++ check (runes_of_ascii "packet A {
+ u8 x `d" ++ [8287]%N ++ runes_of_ascii "`, // c" ++ [8287]%N ++ runes_of_ascii "
+}")).
+Eval vm_compute in ("<<<M217>>>" ++ check (runes_of_ascii "root	packet falsey
+{
+}
+")).
+Eval vm_compute in ("<<<M1718>>>" ++ check (runes_of_ascii "// c
+
+MetaData
+	u{
+}
+")).
+Eval vm_compute in ("<<<M22>>>" ++ check (runes_of_ascii "packet leftPad {
+}")).
+Eval vm_compute in ("<<<M1001>>>" ++ check (runes_of_ascii "packet A {
+}
+// c" ++ [8192]%N)).
+Eval vm_compute in ("<<<M172>>>" ++ check (runes_of_ascii "packet
+len { }
+
+")).
+Eval vm_compute in ("<<<M409>>>" ++ check (runes_of_ascii "packet uint8x
+{")).
+Eval vm_compute in ("<<<M1577>>>" ++ check (runes_of_ascii "options {
+}")).
+Eval vm_compute in ("<<<M1529>>>" ++ check (runes_of_ascii "// " ++ [27880; 37322]%N)).
